@@ -138,7 +138,7 @@ def wb_coq(hist):
             evs.append("WInherit %s %s" % (G.coq_hmac_cfg(I, model_cfg(e["cfg"])), G.cbool(e["snap"])))
     cfg0 = G.coq_hmac_cfg(I, model_cfg(hist["cfg"]))
     body = ["From Coq Require Import ZArith List Bool NArith.",
-            "From HK Require Import Model.NonceCache Model.Hmac Model.Reload Model.HmacHistory Model.AuthEval.",
+            "From HK Require Import Model.NonceCache Model.Hmac Model.ReloadAuth Model.HmacHistory Model.AuthEval.",
             "Import ListNotations.", "Open Scope Z_scope.", I.preamble(),
             "Definition H : list wev := %s." % G.clist(evs),
             "Definition R := Eval vm_compute in wb_run %s [] H." % cfg0, "Print R."]
@@ -291,7 +291,7 @@ def bb_coq(scen):
             evs.append(ev(st["now_b"], st["_rb"]))
             plan.append(("race", (len(evs) - 2, len(evs) - 1), cur))
     body = ["From Coq Require Import ZArith List Bool NArith.",
-            "From HK Require Import Model.NonceCache Model.Hmac Model.Reload Model.HmacHistory Model.AuthEval.",
+            "From HK Require Import Model.NonceCache Model.Hmac Model.ReloadAuth Model.HmacHistory Model.AuthEval.",
             "Import ListNotations.", "Open Scope Z_scope.", I.preamble(),
             "Definition H : list event := %s." % G.clist(evs),
             "Definition R := Eval vm_compute in bb_run p_init H.", "Print R."]
